@@ -213,6 +213,26 @@ def run_e2e(ctx):
                         if api == "recv" and not wf and obs != ("exn", "PAYLOAD"):
                             ctx.violate("skip-passthrough", "recv-undecodable-not-payload-exception", inp, "raises PAYLOAD", str(obs),
                                         size=len(p) + len(frs))
+        # the judgement does not depend on what the object went through before: a receive that timed out, or one that raised
+        # for another message, leaves validation as it was configured
+        if not wf:
+            for first_api in ("recv", "recv_data"):
+                for later_api in ("recv_data", "recv_data_frame", "recv"):
+                    ws, sock = simnet.make_ws([("timeout",), ("chunk", simnet.srv_frame(1, b"\xff")), ("timeout",),
+                                               ("chunk", simnet.srv_frame(1, p))], mask_key=b"abcd")
+                    sock.timeout = 0.5
+                    hist = []
+                    for api in (first_api, first_api, first_api, later_api):
+                        try:
+                            r = getattr(ws, api)()
+                            hist.append("ret")
+                        except Exception as e:  # noqa
+                            hist.append(common.canon_exc(e))
+                    ctx.case(key=("after-exceptions", p, first_api, later_api), nontrivial=True, cls=f"e2e:after-timeout-and-rejection:{first_api}:{later_api}")
+                    if hist[:3] != ["TIMEOUT", "PAYLOAD", "TIMEOUT"] or hist[3] not in ("PAYLOAD", "PROTO"):
+                        ctx.violate("text-delivered-iff-wellformed", "ill-formed-delivered-after-earlier-exceptions", 
+                                    {"op": f"{first_api}() x3 (time-out, rejected text FF, time-out), then {later_api}() on the ill-formed text",
+                                     "payload": p.hex()}, ["TIMEOUT", "PAYLOAD", "TIMEOUT", "PAYLOAD"], hist, size=len(p) + 4)
         # "nothing is delivered": after a rejected message the NEXT message is judged and delivered on its own
         if not wf:
             nxt = "n\u00e4chste".encode()
